@@ -19,8 +19,10 @@ func init() {
 		Assumptions: []string{"using a bitmap that failed Validate() is documented user error and not judged", "hangs are judged by the parent's watchdog (bounded progress)"},
 		Units: []Unit{
 			{Name: "prefixes@plain,checkptr", Quick: 260, Thorough: 8000, Run: c10Prefixes},
+			{Name: "prefixes-of-65536-chunk-streams@plain", Quick: 4, Thorough: 40, Run: c10HugePrefixes},
 			{Name: "corrupt-portable@plain,checkptr", Quick: 4000, Thorough: 300000, Run: c10CorruptPortable},
 			{Name: "corrupt-frozen@plain,checkptr", Quick: 4000, Thorough: 300000, Run: c10CorruptFrozen},
+			{Name: "synthesized-frozen@plain,checkptr", Quick: 2500, Thorough: 300000, Run: c10SynthFrozen},
 			{Name: "random-bytes@plain,checkptr", Quick: 3000, Thorough: 200000, Run: c10Random},
 			{Name: "repository-crashers@plain", Quick: 1, Thorough: 1, Run: c10Crashers, Serial: true},
 			{Name: "mustreadfrom@plain", Quick: 1500, Thorough: 60000, Run: c10MustReadFrom},
@@ -926,4 +928,114 @@ func c10PinnedKnown(c *Ctx) {
 			return
 		}
 	}
+}
+
+// c10SynthFrozen builds frozen images from scratch out of header fields (type codes, count fields, keys) instead of
+// damaging a valid image. The arena lengths follow one of several arithmetics for the same fields - the correct
+// one, the sum with the "+1" taken in 16 bits (wraps at 0xFFFF), the bare count - so that images exist whose TOTAL
+// LENGTH is consistent with one reading of the fields and not with another. Single-field corruptions of a valid
+// image never produce those: they always leave a length surplus or deficit (seeded change C10-r4m1).
+func c10SynthFrozen(c *Ctx) {
+	r := c.R
+	n := []int{0, 1, 1, 1, 2, 2, 3, 5}[r.Intn(8)]
+	types := make([]byte, n)
+	counts := make([]int, n)
+	keys := make([]int, n)
+	k := r.Intn(3)
+	for i := 0; i < n; i++ {
+		types[i] = []byte{1, 2, 2, 2, 3, 3, 0, 4}[r.Intn(8)]
+		if r.Chance(0.7) {
+			counts[i] = []int{0, 1, 2, 4095, 4096, 4097, 16383, 16384, 32767, 32768, 65534, 65535}[r.Intn(12)]
+		} else {
+			counts[i] = r.Intn(65536)
+		}
+		keys[i] = k
+		k += 1 + r.Intn(3)
+		if r.Chance(0.05) {
+			k = r.Intn(65536)
+		}
+	}
+	arith := r.Intn(4)
+	arrEls, runEls, nbm := 0, 0, 0
+	for i, t := range types {
+		switch t {
+		case 1:
+			nbm++
+		case 2:
+			switch arith {
+			case 0:
+				arrEls += counts[i] + 1
+			case 1:
+				arrEls += int(uint16(counts[i] + 1))
+			case 2:
+				arrEls += counts[i]
+			default:
+				arrEls = int(uint16(arrEls + counts[i] + 1))
+			}
+		case 3:
+			switch arith {
+			case 0, 1:
+				runEls += counts[i]
+			case 2:
+				runEls += counts[i] + 1
+			default:
+				runEls = int(uint16(runEls + counts[i]))
+			}
+		}
+	}
+	if nbm > 2 || arrEls+2*runEls > 1<<18 {
+		return
+	}
+	var b []byte
+	word := make([]byte, 8)
+	for i := 0; i < nbm; i++ {
+		fill := []byte{0, 0xFF, 0xAA}[r.Intn(3)]
+		for w := 0; w < 1024; w++ {
+			for j := range word {
+				word[j] = fill
+				if fill == 0xAA && r.Chance(0.1) {
+					word[j] = byte(r.Intn(256))
+				}
+			}
+			b = append(b, word...)
+		}
+	}
+	// run arena: ascending (start,len-1) pairs; array arena: ascending values
+	v := 0
+	for i := 0; i < runEls; i++ {
+		l := r.Intn(3)
+		b = append(b, byte(v), byte(v>>8), byte(l), 0)
+		v = (v + l + 2) & 0xFFFF
+	}
+	v = r.Intn(5)
+	for i := 0; i < arrEls; i++ {
+		b = append(b, byte(v), byte(v>>8))
+		v = (v + 1 + r.Intn(2)) & 0xFFFF
+	}
+	for _, x := range keys {
+		b = append(b, byte(x), byte(x>>8))
+	}
+	for _, x := range counts {
+		b = append(b, byte(x), byte(x>>8))
+	}
+	b = append(b, types...)
+	hdr := uint32(frozenMagic | n<<15)
+	b = append(b, byte(hdr), byte(hdr>>8), byte(hdr>>16), byte(hdr>>24))
+	how := fmt.Sprintf("synthesized/arena-arithmetic-%d", arith)
+	c.Step("synthesized frozen image: types=%v counts=%v keys=%v arena arithmetic %d (0 exact, 1 '+1' in 16 bits, 2 bare count / count+1, 3 running sum in 16 bits) -> %d bytes", types, counts, keys, arith, len(b))
+	c.Count("synth_frozen_arithmetic_" + fmt.Sprint(arith))
+	c.Distinct(sumBytes(b))
+	outs, done := feedAll(c, b, "frozen/"+how, false)
+	defer done()
+	nheavy := 0
+	for _, o := range outs {
+		if o.b != nil && !c.Failed() {
+			if o.name == "FrozenView" {
+				c.Count("synth_frozen_accepted")
+			}
+			consistencyLevel(c, o, "frozen/"+how, nheavy < 2)
+			nheavy++
+		}
+	}
+	c.Sample(map[string]any{"unit": "synthesized-frozen", "case_seed": c.CaseSeed, "types": fmt.Sprint(types), "counts": counts, "bytes": len(b)})
 }
